@@ -23,6 +23,9 @@ pub struct Ctx {
     pub lines: Vec<Value>,
     /// number of versions the server has discarded from the front of the chain
     pub trimmed: usize,
+    /// 0: versions are served byte for byte; 1..3: served re-written in another rendering of
+    /// the documented format (as a different implementation might have written them)
+    pub restyle: u8,
 }
 
 impl Ctx {
@@ -34,6 +37,7 @@ impl Ctx {
             snapshot: None,
             lines: vec![],
             trimmed: 0,
+            restyle: 0,
         }
     }
     pub fn latest(&self) -> Uuid {
@@ -212,7 +216,11 @@ impl Server for Gated {
         {
             let i = parent_idx as usize;
             let id = c.ids[i];
-            let body = c.bodies[i].clone();
+            let body = if c.restyle == 0 {
+                c.bodies[i].clone()
+            } else {
+                restyle(&c.bodies[i], c.restyle + (i % 3) as u8)
+            };
             c.emit(json!({"a":"Pull","r":rid,"parent":parent_idx,"res":"version","ver":i+1}));
             Ok(GetVersionResult::Version {
                 version_id: id,
@@ -275,4 +283,86 @@ impl Server for Gated {
             }
         }
     }
+}
+
+fn json_str(s: &str, escape_non_ascii: bool) -> String {
+    let mut o = String::from("\"");
+    for ch in s.chars() {
+        match ch {
+            '"' => o.push_str("\\\""),
+            '\\' => o.push_str("\\\\"),
+            '\n' => o.push_str("\\n"),
+            '\r' => o.push_str("\\r"),
+            '\t' => o.push_str("\\t"),
+            c if (c as u32) < 0x20 => o.push_str(&format!("\\u{:04x}", c as u32)),
+            c if escape_non_ascii && !c.is_ascii() => {
+                let mut buf = [0u16; 2];
+                for u in c.encode_utf16(&mut buf) {
+                    o.push_str(&format!("\\u{:04x}", u));
+                }
+            }
+            c => o.push(c),
+        }
+    }
+    o.push('"');
+    o
+}
+
+/// Re-render a version document in another form of the documented format: other key order,
+/// other (still RFC 3339, `Z`-suffixed) timestamp precision, insignificant whitespace,
+/// \u escapes.  The meaning is unchanged.
+pub fn restyle(body: &[u8], style: u8) -> Vec<u8> {
+    let doc: Value = match serde_json::from_slice(body) {
+        Ok(d) => d,
+        Err(_) => return body.to_vec(),
+    };
+    let ops = match doc.get("operations").and_then(|o| o.as_array()) {
+        Some(o) => o,
+        None => return body.to_vec(),
+    };
+    let esc = style % 2 == 0;
+    let (sp, nl) = match style % 3 {
+        0 => ("", ""),
+        1 => (" ", "\n  "),
+        _ => ("\t", " "),
+    };
+    let mut out = format!("{{{nl}\"operations\"{sp}:{sp}[");
+    for (i, op) in ops.iter().enumerate() {
+        if i > 0 {
+            out.push(',');
+        }
+        out.push_str(nl);
+        let (kind, b) = op.as_object().unwrap().iter().next().unwrap();
+        let uuid = json_str(b["uuid"].as_str().unwrap(), false);
+        if kind == "Update" {
+            let prop = json_str(b["property"].as_str().unwrap(), esc);
+            let val = match &b["value"] {
+                Value::String(s) => json_str(s, esc),
+                _ => "null".to_string(),
+            };
+            let ts = b["timestamp"].as_str().unwrap();
+            let dt = chrono::DateTime::parse_from_rfc3339(ts)
+                .unwrap()
+                .with_timezone(&chrono::Utc);
+            // another precision that denotes exactly the same instant
+            let ns = dt.timestamp_subsec_nanos();
+            let ts2 = if ns == 0 && style % 4 == 2 {
+                dt.format("%Y-%m-%dT%H:%M:%SZ").to_string()
+            } else if ns % 1_000_000 == 0 && style % 4 == 0 {
+                dt.format("%Y-%m-%dT%H:%M:%S%.3fZ").to_string()
+            } else if ns % 1_000 == 0 && style % 4 == 1 {
+                dt.format("%Y-%m-%dT%H:%M:%S%.6fZ").to_string()
+            } else {
+                dt.format("%Y-%m-%dT%H:%M:%S%.9fZ").to_string()
+            };
+            // documented fields, in an order this implementation does not emit
+            out.push_str(&format!(
+                "{{{sp}\"Update\"{sp}:{sp}{{\"timestamp\":{sp}\"{ts2}\",{sp}\"value\":{sp}{val},{sp}\"property\":{sp}{prop},{sp}\"uuid\":{sp}{uuid}}}{sp}}}"
+            ));
+        } else {
+            out.push_str(&format!("{{{sp}\"{kind}\"{sp}:{sp}{{{sp}\"uuid\"{sp}:{sp}{uuid}{sp}}}}}"));
+        }
+    }
+    out.push_str(&format!("{nl}]{nl}}}"));
+    out.into_bytes()
 }
